@@ -285,10 +285,10 @@ int univ_small_count(void)
     NSMALL = 0;
     for (int i = 0; i < ns; i++) { SMALL[NSMALL].kind = USRC_SYNTHETIC; SMALL[NSMALL].text = strdup(SMALL_SYN[i]); SMALL[NSMALL].name = SMALL[NSMALL].text; NSMALL++; }
     for (int i = 0; i < nf; i++) {
-      /* keep fixtures with <= 8 PUs: decided by counting type="PU" */
+      /* keep fixtures with <= 8 PUs: decided by counting <object type="PU" (not initiator_obj_type="PU" of memory attributes) */
       int len; char *buf = univ_read_file(FIX[i].text, &len); int pus = 0;
       if (!buf) continue;
-      for (char *p = buf; (p = strstr(p, "type=\"PU\"")); p++) pus++;
+      for (char *p = buf; (p = strstr(p, "<object type=\"PU\"")); p++) pus++;
       free(buf);
       if (pus <= 8) SMALL[NSMALL++] = FIX[i];
     }
